@@ -16,7 +16,7 @@ sys.path.insert(0, '/verif')
 from sa import corpus, selftest
 src = selftest.load_sources()
 bad = [v['name'] for v in corpus.VARIANTS if selftest.apply_variant(src, v) is None]
-for p in sorted(glob.glob('/verif/seeded/*/patch.diff') + glob.glob('/verif/neutral/*/patch.diff')):
+for p in sorted(glob.glob('/verif/seeded/*/patch.diff') + glob.glob('/verif/neutral/*/patch.diff') + glob.glob('/verif/twins/*/patch.diff')):
     if subprocess.run(['git', '-C', '/repo', 'apply', '--check', p], capture_output=True).returncode != 0:
         bad.append(p)
 print("stale variants:", bad if bad else "none")
